@@ -662,7 +662,7 @@ class QGen:
         r = self.r
         steps = []
         form = r.choice(["evt_single", "evt_tuple", "evt_dict", "per_object", "per_object_tuple", "two_step", "two_step_tuple",
-                         "flat_rows", "pair_rows", "two_step_dict", "two_step_filtered", "evt_shared"])
+                         "flat_rows", "pair_rows", "two_step_dict", "two_step_filtered", "evt_shared", "rows_evt_value"])
         depth = r.choice([1, 2, self.max_depth])
         self.shape.append(form)
         if r.random() < 0.25:
@@ -717,6 +717,37 @@ class QGen:
                     body = f"(({cnd}) {r.choice(['and', 'or'])} ({t}[1] > {r.choice(FLOATS)}), {t}[1])"
                 steps.append(["Select", f"lambda {t}: {body}"])
                 self.shape.append("shared_tuple")
+        elif form == "rows_evt_value":
+            # one row per object (or per number), each row carrying a value of the EVENT that is also used to decide which
+            # rows there are: the value is computed once per event, before / outside the loop that fills the rows
+            x, _ = self.evt_num("e", max(0, depth - 1))
+            kk = r.random()
+            if kk < 0.35:
+                n, i = self.var("n"), self.var("i")
+                steps.append(["Select", f"lambda e: {x}"])
+                self.uncond = False
+                body = r.choice([f"({i}, {n})", f"({i} * 1.0, {n}, {n} + {i})", f"{n} + {i}"])
+                steps.append(["SelectMany", f"lambda {n}: Range(0, {r.choice(['3', '4', '5'])}).Where(lambda {i}: {i} {r.choice(['<', '<=', '!='])} {n}).Select(lambda {i}: {body})"])
+                self.shape.append("range_rows")
+            elif kk < 0.7:
+                s_, et = self.seq_of_obj("e", 0, allow_where=False)
+                t, o = self.var("t"), self.var("o")
+                steps.append(["Select", f"lambda e: ({s_}, {x})"])
+                self.uncond = False
+                m = r.choice(DOUBLE_METHODS)
+                flt = f".Where(lambda {o}: {o}.{m}() {r.choice(['>', '<', '!='])} {t}[1])" if r.random() < 0.7 else ""
+                steps.append(["SelectMany", f"lambda {t}: {t}[0]{flt}.Select(lambda {o}: ({o}.{r.choice(DOUBLE_METHODS)}(), {t}[1]))"])
+                self.shape.append("tuple_rows")
+            else:
+                s_, et = self.seq_of_obj("e", 0, allow_where=False)
+                o = self.var("o")
+                m = r.choice(DOUBLE_METHODS)
+                flt = f".Where(lambda {o}: {o}.{m}() {r.choice(['>', '<', '!='])} {x})" if r.random() < 0.7 else ""
+                steps.append(["SelectMany", f"lambda e: {s_}{flt}.Select(lambda {o}: ({o}.{r.choice(DOUBLE_METHODS)}(), {x}))"])
+                self.shape.append("inline_rows")
+            for oc in self.occ:
+                oc["uncond"] = False  # laziness: what the row loop needs is fetched where the loop needs it
+                oc.pop("per_element_of", None)
         elif form in ("per_object", "per_object_tuple"):
             s, et = self.seq_of_obj("e", depth)
             steps.append(["SelectMany", f"lambda e: {s}"])
